@@ -340,6 +340,24 @@ package server
 //@ assigns sent(errCh), sent(resultChan), ribState, hookCount, spawned, s.curElecID, s.curMaster, s.cs[cid].params, s.cs[cid].setParams, s.cs[cid].lastElecID, nRecv, lastMulti, resAtRecv, ribAtRecv, elecAtRecv, masterAtRecv
 //@ props C09 C12:safety C11:lock C12:ensures#multi-field-rejected C12:ensures#multi-field-no-effect C12:ensures#other-sessions-untouched
 
+// Server.Get: the consumer side of Get. One producer (doGet) is started; every response taken from
+// the producer's message channel is written to the client stream exactly once before the next one
+// is taken; the RPC ends OK only if no producer error was received (and then every response that was
+// received has been written); any failure is reported as INTERNAL.
+//@ unit Server.Get
+//@ requires s != nil && tagof(stream) != 0
+//@ at "errCh := make(chan error)" ghost msg0 = recvd(msgCh)
+//@ at "stopCh := make(chan struct{})" ghost err0 = recvd(errCh)
+//@ loop 1 invariant streamSends == old(streamSends) + recvd(msgCh) - msg0 && recvd(errCh) == err0 && spawned == old(spawned) + 1
+//@ at "return nil" ghost msgN = recvd(msgCh)
+//@ at "return nil" ghost errN = recvd(errCh)
+//@ ensures[forwards-every-response] result0 == nil ==> streamSends == old(streamSends) + msgN - msg0
+//@ ensures[ok-means-no-producer-error] result0 == nil ==> errN == err0
+//@ ensures[failure-is-internal] result0 != nil ==> errCode(result0) == codes.Internal
+//@ ensures[one-producer] spawned == old(spawned) + 1
+//@ assigns streamSends, spawned, recvdAll
+//@ props C07 C12:safety
+
 // ---- BEGIN Get (C07), generated by /verif/tools/gen_get_contracts.py ----
 //@ ghostvar gotNI StrSet
 // validAFT: the table selectors Get supports.
